@@ -379,6 +379,11 @@ def run(ctx):
     if not ctx.quick():
         ctx.enumerate("session", two_cut_cases(), name="two-cut-segmentations")
         ctx.enumerate("session", near_max_line_cases(), name="lines-near-the-1MiB-limit", exhaustive=False)
+        if ctx.shard == 0:
+            from vlib import fuzzrun
+            fuzzrun.run_atheris(ctx, "c01_atheris.py", "session", 150000,
+                                "txtorcon.torcontrolprotocol + txtorcon.spaghetti (reply/line state machine)",
+                                max_len=500, script_args=["c01"])
 
 
 MUTANTS = [
